@@ -116,7 +116,7 @@ def c04_2(R):
                 fu = field_update(ar, s2)
                 if fu and fu.field == "OutOfOrderQueue.filled_front" and fu.op == "+=":
                     t2 = trace(ar, fu.amount)
-                    if t2.describe() == src_t.describe():
+                    if t2.key() == src_t.key():
                         okc = True
     if okc:
         R.ok("consumed-count=filled_front-advance", ar.name, "Consumed.sequence_numbers is the value added to filled_front")
